@@ -209,12 +209,53 @@ def run(ctx, res):
                                    "NACK: a bitmask step yields PID + j (mod 2^16) for a tested set bit j-1 of BLP (BE16 at 4i+2), j in 1..=16 at or after the current position, and continues at j+1",
                                    detail=repr(y)[:200], pc=s2.pc)
                 res.ob(rep.progress_ok, "iter-progress", nd, "NACK: (word, bit) advances lexicographically, bounded by the FCI length")
+                n_dec += scan_complete(res, I, nd, inp, syms)
     res.floor("decoder transitions / accessor results compared", n_dec, 14)
     res.analysed = {"gating_outcomes": n_gate, "decoder_checks": n_dec}
-    res.assumptions.append("NACK: completeness of the bit scan (no set bit is skipped) follows from the +1 step of the scan index; the quantified invariant is argued in DESIGN.md, not inferred by the checker")
+    res.assumptions.append("NACK: completeness of the bit scan (no set bit is skipped) is decided per scan step (rule nack-transition: +1, same word, the bit left was tested clear); the induction over the steps between two yields is the usual one, stated in DESIGN.md")
 
 
-def bit_tested(pc, blp, bitidx):
+def scan_complete(res, I, nd, inp, syms):
+    """No set bit is skipped: every step of the bit scan that does not yield leaves the word index alone, advances the
+    bit index by exactly one and has tested the bit it leaves (index mask_i - 1) as clear — on the steps that repeat the
+    scan loop and on the step (if any) taken on the way out of it.  With the yield rule above this is the induction step
+    of "between two yields of one word every bit was tested clear"."""
+    n = 0
+    for lr in I.loop_reports:
+        if lr.fn != nd or lr.kind != "loop":
+            continue
+        mk = [a for a, _ in lr.carried if "mask_i" in a[1]]
+        ik = [a for a, _ in lr.carried if a[1].split("@")[0].split(".")[-1] == "i"]
+        if not mk or not lr.backs:
+            continue
+        m = Lin.atom(mk[0])
+        steps = [new.get(mk[0]) - m if new.get(mk[0]) is not None else None for _, new in lr.backs]
+        # the inner scan: every repetition moves the bit index forward by a constant (the whole-body loop of next(),
+        # which can also reload the word or restart at bit 0, is covered by the transition table)
+        if not all(d is not None and d.is_const() and d.c >= 1 for d in steps):
+            continue
+        iw = Lin.atom(ik[0]) if ik else None
+        blp = view_be(inp, Lin.atom(syms["i"]).scale(4) + 2, 2)
+        for (delta, new), d in zip(lr.backs, steps):
+            n += 1
+            same_word = iw is None or new.get(ik[0]) == iw
+            res.ob(d.c == 1 and same_word and bit_tested(delta, blp, m - 1, want_set=False), "nack-transition", nd,
+                   "NACK: a scan step that yields nothing stays in the word, moves to the next bit and has tested the bit it leaves as clear (no set bit is skipped)",
+                   pc=delta)
+        for (kind, val, delta), vals in zip(lr.exit_kinds, getattr(lr, "exit_vals", [])):
+            if kind != "brk":
+                continue
+            n += 1
+            mv = vals.get(mk[0])
+            stay = mv is not None and mv == m
+            one = mv is not None and mv == m + 1 and bit_tested(delta, blp, m - 1, want_set=False)
+            res.ob(stay or one, "nack-transition", nd,
+                   "NACK: the scan of a word is left without a yield either at its current bit or one bit further after testing that bit as clear", pc=delta)
+    res.floor("NACK bit-scan steps checked", n, 2)
+    return n
+
+
+def bit_tested(pc, blp, bitidx, want_set=True):
     """the path condition contains the test ((BLP >> bitidx) & 1) > 0 (as the interpreter's opaque shift/and terms)"""
     for l in pc:
         if l[0] not in ("le", "ne", "eq"):
@@ -225,7 +266,7 @@ def bit_tested(pc, blp, bitidx):
                 sa = Lin.from_key(a[1]).single_atom()
                 if sa and sa[1] == 1 and sa[0][0] == "opq" and isinstance(sa[0][1], tuple) and sa[0][1][0] == "shr":
                     val, amt = Lin.from_key(sa[0][1][1]), Lin.from_key(sa[0][1][2])
-                    if solver.entails(pc, f_and(flit(eq(val, blp)), flit(eq(amt, bitidx)))) and solver.entails(pc, flit(ge(Lin.atom(a), 1))):
+                    if solver.entails(pc, f_and(flit(eq(val, blp)), flit(eq(amt, bitidx)))) and solver.entails(pc, flit(ge(Lin.atom(a), 1)) if want_set else flit(le(Lin.atom(a), 0))):
                         return True
             if a[0] == "opq" and isinstance(a[1], tuple) and a[1][0] == "bitop" and a[1][1] == "BitAnd":
                 x, y = Lin.from_key(a[1][2]), Lin.from_key(a[1][3])
@@ -234,6 +275,6 @@ def bit_tested(pc, blp, bitidx):
                 sa = x.single_atom()
                 if sa and sa[0][0] == "opq" and isinstance(sa[0][1], tuple) and sa[0][1][0] == "shr":
                     val, amt = Lin.from_key(sa[0][1][1]), Lin.from_key(sa[0][1][2])
-                    if solver.entails(pc, f_and(flit(eq(val, blp)), flit(eq(amt, bitidx)))) and solver.entails(pc, flit(ge(Lin.atom(a), 1))):
+                    if solver.entails(pc, f_and(flit(eq(val, blp)), flit(eq(amt, bitidx)))) and solver.entails(pc, flit(ge(Lin.atom(a), 1)) if want_set else flit(le(Lin.atom(a), 0))):
                         return True
     return False
